@@ -8,16 +8,18 @@ Require Import Board Move GameOver Eval Search NegamaxSpec SearchGen.
 Import ListNotations.
 Open Scope Z_scope.
 
-(* the anonymous loop of Search.analyze_all_gen *)
+(* the anonymous loop of Search.analyze_all_gen; the third component says that the loop stopped because the flag was seen set
+   (repaired code only: pinned = false) *)
 Definition aa_loop (pinned : bool) (basis : list N) (cfg : config) (k : Z) (d v : Z) (pm : rmove) (pvt : list rmove) :=
-  fix loop (n : nat) (s : sstate) (g : mgen) (out : list (list rmove)) {struct n} : sstate * list (list rmove) :=
-    match n with O => (s, out) | S k' =>
+  fix loop (n : nat) (s : sstate) (g : mgen) (out : list (list rmove)) {struct n} : sstate * list (list rmove) * bool :=
+    match n with O => (s, out, false) | S k' =>
       let '(g, nx) := mg_next pinned basis cfg (gfuel g) s g in
       match nx with
-      | None => (s, out)
+      | None => (s, out, false)
       | Some (m, child) =>
         let s := set_fm s 0 m in
         let '(s, (ms, cv)) := srch pinned basis cfg k 40 false s child 1 (d - 1) pvt (- v - 1) (- v + 1) true in
+        if negb pinned && cancelled k s then (s, out, true) else
         let cv := - cv in
         if negb (cv =? v) then loop k' s g out
         else if move_equal m pm then loop k' s g out
@@ -32,8 +34,8 @@ Lemma analyze_all_unfold pinned basis cfg k s0 p :
   | [] => (s, ([], v, d, canc))
   | pm :: pvt =>
     let g0 := new_gen s None pv 0 d p in
-    let '(s, out) := aa_loop pinned basis cfg k d v pm pvt (gfuel g0) s g0 [pv] in
-    (s, (out, v, d, canc))
+    let '(s, out, brk) := aa_loop pinned basis cfg k d v pm pvt (gfuel g0) s g0 [pv] in
+    (s, (out, v, d, canc || brk))
   end.
 Proof. reflexivity. Qed.
 
